@@ -113,6 +113,11 @@ def o_verify(ctx, case):
         got = S.AggregateVerify(pks, msgs, agg)
         ctx.check(pks == pks_before and msgs == msgs_before, "verify", "argument_lists_changed", case,
                   "AggregateVerify re-ordered or changed the lists it was given")
+        if len(pks) <= 2:
+            got_t = S.AggregateVerify(tuple(pks), tuple(msgs), agg)         # Sequence arguments given as tuples
+            ctx.check(got_t is got, "verify", "tuple_vs_list", case,
+                      f"AggregateVerify on tuples = {got_t!r}, on lists = {got!r}")
+            ctx.label("verify:tuple_arguments")
     else:
         m = msgs[0]
         if len(pks) < 1:
